@@ -249,7 +249,7 @@ Qed.
 (* ---------------------------------------------------------------- every call keeps the invariant *)
 Lemma mcall_pmap_ok K m c : (forall g, c <> IterNext g) -> pmap_ok m -> pmap_ok (fst (fst (mcall K m c))).
 Proof.
-  intros NN P. destruct c as [pid|pid|o|o s|o|o|o|o|o|a b|a b|o s|o|o| | |o vis| |g|o vis]; cbn [mcall].
+  intros NN P. destruct c as [pid|pid|o|o s|o|o|o|o|o|a b|a b|o s|o|o| | |o vis| |g|o vis|o hw ok|o ok]; cbn [mcall].
   - destruct (new_obj K pid); cbn [fst]; auto. apply pmap_ok_app; auto.
   - destruct (new_popen K pid); cbn [fst]; auto. apply pmap_ok_app; auto.
   - destruct (nth_error (objs m) o) as [x|] eqn:Ex; cbn [fst]; auto.
@@ -260,11 +260,13 @@ Proof.
     eapply pmap_ok_upd_same; eauto.
   - destruct (nth_error (objs m) o); cbn [fst]; auto.
   - destruct (nth_error (objs m) o) as [x|] eqn:Ex; cbn [fst]; auto.
+    destruct (oshared x); cbn [fst]; auto.
     destruct (oneshot_enter_same x). eapply pmap_ok_upd_same; eauto.
   - destruct (nth_error (objs m) o) as [x|] eqn:Ex; cbn [fst]; auto.
     destruct (oneshot_exit x) as [x1|] eqn:Eo; cbn [fst]; auto.
     destruct (oneshot_exit_same x x1 Eo). eapply pmap_ok_upd_same; eauto.
   - destruct (nth_error (objs m) o) as [x|] eqn:Ex; cbn [fst]; auto.
+    destruct (oshared x); cbn [fst]; auto.
     pose proof (do_ppid_logged K (oneshot_enter x)) as [L1 L2]. destruct (oneshot_enter_same x) as [Ee1 Ee2].
     destruct (do_ppid K (oneshot_enter x)) as [[x1 r] add]. cbn [fst snd] in *.
     destruct (oneshot_exit x1) as [x2|] eqn:Eo; cbn [fst]; auto.
@@ -309,6 +311,11 @@ Proof.
     pose proof (do_wait_procs_logged K x vis) as L.
     destruct (do_wait_procs K x vis) as [[x1 r] add]. cbn [fst snd] in *.
     eapply pmap_ok_upd; eauto.
+  - destruct (nth_error (objs m) o) as [x|] eqn:Ex; cbn [fst]; auto.
+    destruct ok; [|destruct hw; cbn [fst]; auto]. destruct (oshot x); cbn [fst]; auto.
+    apply (pmap_ok_app (with_objs (upd_nth o (with_shared x) (objs m)) m) [with_shared x]).
+    eapply pmap_ok_upd_same; eauto.
+  - destruct (nth_error (objs m) o); cbn [fst]; auto.
 Qed.
 
 Lemma cstep_pmap_ok w c : (forall g, c <> IterNext g) -> pmap_ok (ms w) -> pmap_ok (ms (fst (fst (cstep w c)))).
